@@ -79,7 +79,13 @@ func checkC07(c *Ctx) {
 			return
 		}
 		t := &Tmpl{NS: "app.main", Name: "entry", Params: params, Body: body, Header: variant&1 == 1, BothDecl: both}
-		main := &File{Name: "main.soy", NS: "app.main", Aliases: []string{"lib.deep"}, Tmpls: []*Tmpl{t}}
+		// a first template that declares and uses every name: the checker reaches the entry
+		// template from a non-initial state (whatever it remembers must not leak forward).
+		warm := &Tmpl{NS: "app.main", Name: "warm", Params: []Param{{"x", true}, {"y", true}, {"c", true}, {"l", true}, {"m", true}, {"extra", true}, {"zz", true}}, Body: []*Cmd{
+			pr(bin("?:", vr("x"), S(""))), pr(bin("?:", vr("y"), S(""))), pr(bin("?:", vr("c"), S(""))), pr(bin("?:", vr("l"), S(""))), pr(bin("?:", vr("m"), S(""))),
+			pr(bin("?:", vr("extra"), S(""))), pr(bin("?:", vr("zz"), S(""))), {K: "let", Var: "w", E: I(1)}, pr(vr("w")), {K: "foreach", Var: "x", E: &E{K: "list"}, Body: []*Cmd{pr(vr("x"))}},
+		}}
+		main := &File{Name: "main.soy", NS: "app.main", Aliases: []string{"lib.deep"}, Tmpls: []*Tmpl{warm, t}}
 		files := []*File{main, lib[0]}
 		rules := checkRules(files)
 		if rules["ambiguous-param-use"] {
@@ -184,6 +190,11 @@ func checkC07(c *Ctx) {
 		return params
 	}
 
+	defer func() {
+		if c.Shard == 0 && !c.stopped && c.only < 0 && (c.res.Counters["expected_accept"] == 0 || c.res.Counters["expected_reject"] == 0) {
+			panic("C07 is vacuous: no accepted or no rejected programs were generated")
+		}
+	}()
 	seenBodies := 0
 	enumBodies(c.Thorough(), func(body []*Cmd, variant int) {
 		seenBodies++
